@@ -34,6 +34,7 @@ import (
 	acracensor "github.com/cossacklabs/acra/acra-censor"
 	"github.com/cossacklabs/acra/decryptor/base"
 	base_mysql "github.com/cossacklabs/acra/decryptor/mysql/base"
+	encryptor "github.com/cossacklabs/acra/encryptor/base"
 	"github.com/cossacklabs/acra/encryptor/mysql"
 	"github.com/cossacklabs/acra/keystore/filesystem"
 	"github.com/cossacklabs/acra/logging"
@@ -569,6 +570,16 @@ func (handler *Handler) handleStatementExecute(ctx context.Context, packet *Pack
 		preparedStmt := stmtItem.Statement()
 		paramsNumber = preparedStmt.ParamsNum()
 		statement = preparedStmt.Query()
+
+		// the result set that follows is the one of this statement, not of the last COM_QUERY / COM_STMT_PREPARE
+		if clientSession := base.ClientSessionFromContext(ctx); clientSession != nil {
+			querySettings := stmtItem.QuerySettings()
+			if querySettings == nil {
+				// not "unknown" but "none": the settings of the last query must not be used instead
+				querySettings = []*encryptor.QueryDataItem{}
+			}
+			encryptor.SaveQueryDataItemsToClientSession(clientSession, querySettings)
+		}
 	}
 
 	// https://dev.mysql.com/doc/dev/mysql-server/latest/page_protocol_com_stmt_execute.html
@@ -987,7 +998,16 @@ func (handler *Handler) PreparedStatementResponseHandler(ctx context.Context, pa
 	}
 
 	preparedStmt := NewPreparedStatement(response.StatementID, response.ParamsNum, queryObj.Query(), statement)
-	handler.registry.AddStatement(NewPreparedStatementItem(preparedStmt, nil))
+	// keep the settings of the result columns with the statement: it may be executed after other queries
+	var selectSettings []*encryptor.QueryDataItem
+	if selectStatement, ok := statement.(*sqlparser.Select); ok {
+		selectSettings, err = mysql.ParseQuerySettings(ctx, selectStatement, handler.setting.TableSchemaStore())
+		if err != nil {
+			handler.logger.WithError(err).Debugln("Can't match columns of prepared statement with encryption settings")
+			selectSettings = nil
+		}
+	}
+	handler.registry.AddStatement(NewPreparedStatementItem(preparedStmt, selectSettings))
 
 	// choose the handler of the next packet before the client sees this one: when nothing follows, the client may
 	// send the next command right away and the handler it sets must not be overwritten
